@@ -54,6 +54,16 @@ def build_grid(layouts, ns, gkw, extra=None):
         return Grid(ds, coords=S.grid_coords(layouts), autoparse_metadata=False, **gkw)
 
 
+_SHARED_OTHER = {"extend": {"Y": "extend"}, "fill": {"Y": "fill"}, "fv": {"Y": 99.0}}
+
+
+def reset():
+    """(replay) the shared mappings as they were when the process started"""
+    for k, v in (("extend", {"Y": "extend"}), ("fill", {"Y": "fill"}), ("fv", {"Y": 99.0})):
+        _SHARED_OTHER[k].clear()
+        _SHARED_OTHER[k].update(v)
+
+
 def supply_kwargs(ax, rule, fv, supply, axes=("X",)):
     """returns (grid kwargs, call kwargs) realising rule/fv for axis ax by the given route"""
     decoy_rule = "extend" if rule != "extend" else "fill"
@@ -67,8 +77,10 @@ def supply_kwargs(ax, rule, fv, supply, axes=("X",)):
         return dict(periodic=False, boundary={a: (rule if a == ax else decoy_rule) for a in axes},
                     fill_value={a: (fv if a == ax else 99.0) for a in axes}), {}
     if supply == "grid+othermap":
-        # Grid-level setting for the operated axis; the per-call mappings name only *another* axis of the grid
-        return dict(periodic=False, boundary=rule, fill_value=fv), dict(boundary={"Y": decoy_rule}, fill_value={"Y": 99.0})
+        # Grid-level setting for the operated axis; the per-call mappings name only *another* axis of the grid.  They are
+        # the same two objects for every Grid of this process (a caller's settings re-used with several grids): whatever a
+        # call does with them must not reach the next Grid
+        return dict(periodic=False, boundary=rule, fill_value=fv), dict(boundary=_SHARED_OTHER[decoy_rule], fill_value=_SHARED_OTHER["fv"])
     if supply == "default":
         assert (rule, fv) in (("periodic", 0.0), ("fill", 0.0))
         return dict(periodic=(rule == "periodic")), {}
